@@ -249,7 +249,18 @@ fn query_archetype_identifiers_unchecked<
             (*world.get()).query_archetype_claims::<T::Views, T::Filter, Or<And<T::Views, T::Filter>, T::EntryViewsFilter>, T::EntryViews, QueryIndices, Or<And<R::ViewsFilterIndices, R::FilterIndices>, EntryViewsFilterIndices>, EntryIndices>()
         }
     {
-        borrowed_archetypes.insert_unique_unchecked(identifier, claims);
+        // Another task of this stage may already have claimed this archetype. The claims of tasks
+        // within one stage are compatible, so they are merged into a single entry.
+        match borrowed_archetypes.entry(identifier) {
+            hash_map::Entry::Occupied(mut entry) => {
+                // SAFETY: The claims are compatible because the tasks are in the same stage.
+                let merged_claims = unsafe { claims.merge_unchecked(entry.get()) };
+                entry.insert(merged_claims);
+            }
+            hash_map::Entry::Vacant(entry) => {
+                entry.insert(claims);
+            }
+        }
     }
 }
 
